@@ -6,6 +6,7 @@ from django.template import Context, Template
 from django_components import Component, ComponentRegistry, NotRegistered, types
 from django_components.component_registry import all_registries
 from django_components.perfutil.component import component_context_cache
+from django_components.util.context import snapshot_context
 
 
 class DynamicComponent(Component):
@@ -117,6 +118,9 @@ class DynamicComponent(Component):
             "comp_class": comp_class,
             "args": args,
             "kwargs": kwargs,
+            # The inner component is rendered later (see `on_render_before()`), when the context we were
+            # given may have already left the scopes (`{% with %}`, `{% for %}`, slot fills) it is in now.
+            "_djc_dynamic_input_context": snapshot_context(self.input.context),
         }
 
     # NOTE: The inner component is rendered in `on_render_before`, so that the `Context` object
@@ -138,7 +142,7 @@ class DynamicComponent(Component):
             registry=self.registry,
         )
         output = comp.render(
-            context=self.input.context,
+            context=context["_djc_dynamic_input_context"],
             args=args,
             kwargs=kwargs,
             slots=self.input.slots,
